@@ -191,7 +191,8 @@ def run(ctx):
     from . import C04
     C04.shared_obligations(ctx, "C05.R6", {"Prefixed", "PrefixedArray", "Padded", "Aligned", "FixedSized", "Bytes", "Array", "Struct", "Sequence", "IfThenElse", "Switch", "Pointer", "Peek", "FormatField", "BytesInteger"}, with_expressions=True)
     from . import C10
-    C10.machinery(ctx, "C05.R6")      # Transformed reads its declared amount (0 included) / Restreamed always goes through the wrapper
+    C10.machinery(ctx, "C05.R6")
+    C10.restreamed_sizeof(ctx, "C05.R6")      # Transformed reads its declared amount (0 included) / Restreamed always goes through the wrapper
     ctx.floor("C05.R6", 12)
 
     # R2 is produced by the position algebra
